@@ -160,6 +160,14 @@ def call(eng, e, st):
             if base.num is not None or base.boo is not None or base.poly is not None:
                 eng.safety_item(base, st, e)
                 return Val(num=base.get_num()) if base.num is not None or base.poly else base
+        if meth in GP_CONFIG_METHODS:
+            # T4 (assumed contract on gpyreg): these GP methods read / write hyper-parameters, priors and bounds only; the
+            # training set (X, y, s2) and temporary_data are left as they are
+            ctx().note("opaque-call", eng.where(e), "." + meth)
+            eng.external_effects(meth, base, e)
+            return Val.fresh("m_" + meth)
+        if meth == "fit" and "hyp0" in kw and "options" in kw:
+            return _gp_fit(eng, base, args, kw, st, e)  # gpyreg GP.fit (keyword signature)
         if meth == "update" and ("compute_posterior" in kw or "hyp" in kw):
             return _gp_update(eng, base, args, kw, st, e)  # gpyreg GP.update (keyword signature), not dict.update
         if meth in MUTATING_METHODS and base.ref is not None:
@@ -814,9 +822,62 @@ def _gp_predict(eng, base, args, kw, st, e):
 
 
 EXTERNAL_MODELS = {"erfcinv": _erfcinv}
+GP_CONFIG_METHODS = {"set_priors", "set_hyperparameters", "set_bounds", "get_priors", "get_bounds", "get_hyperparameters", "hyperparameters_to_dict",
+                     "hyperparameters_from_dict", "get_recommended_bounds"}
+
+
+def _gp_fit(eng, base, args, kw, st, e):
+    """T4 (assumed contract on gpyreg): GP.fit(X, y, s2, hyp0=, options=) needs one target (and, when given, one noise
+    variance) per training input, mutates only the GP, returns (hyp, optimisation result, diagnostics) and may fail with
+    numpy.linalg.LinAlgError (Cholesky of a non-positive-definite covariance) - as often as the ghost fault budget
+    allows: each failure consumes one unit of ghost.fault_budget."""
+    from .symexec import Exit
+    c = ctx()
+    k = eng.call_counts.get("fit", 0)
+    eng.call_counts["fit"] = k + 1
+    if len(args) >= 2:
+        X, Y = args[0].get_arr() if args[0].arr is not None else None, args[1].get_arr() if args[1].arr is not None else None
+        S = args[2] if len(args) > 2 else kw.get("s2")
+        if X is not None and Y is not None:
+            goal = Y.shape[0] == X.shape[0]
+            if S is not None and not S.is_static_none():
+                sa = S.get_arr() if S.arr is not None else None
+                if sa is not None and sa.ndim >= 1:
+                    ok = sa.shape[0] == X.shape[0]
+                    goal = z3.And(goal, z3.Or(S.none, ok) if S.none is not None else ok)
+            eng.oblige("call[fit]#%d::pre::one_target_and_one_noise_variance_per_training_input" % k, st, goal, "pre", True, ("C16",), e)
+    bud = eng.lookup(st, "ghost.fault_budget").get_num().r
+    fails = z3.And(z3.Bool(c.fresh("fit_fails")), bud > 0)
+    xs = st.copy()
+    xs.pc = z3.And(st.pc, fails)
+    xs.env["ghost.fault_budget"] = Val.of_num(N(bud - 1))
+    if base is not None and base.ref is not None:
+        eng.havoc_prefix(xs, base.ref)
+    ex = Exit("raise", xs, exc="LinAlgError", where=eng.where(e))
+    ex.tag = "external[GP.fit]"
+    eng.push_exit(ex)
+    st.pc = z3.And(st.pc, z3.Not(fails))
+    if base is not None and base.ref is not None:
+        eng.havoc_prefix(st, base.ref)
+    eng.external_effects("fit", base, e)
+    return Val.of_tup([Val.fresh("fit_hyp"), Val.fresh("fit_opt"), Val.fresh("fit_res")])
+
+
 def _gp_update(eng, base, args, kw, st, e):
     """T4 (assumed contract on gpyreg): GP.update recomputes the posterior; the training set (X, y, s2) and temporary_data
     are left as they are."""
+    if "hyp" in kw:
+        # posterior recomputation for new hyper-parameters may fail like a fit (Cholesky), within the ghost fault budget
+        from .symexec import Exit
+        bud = eng.lookup(st, "ghost.fault_budget").get_num().r
+        fails = z3.And(z3.Bool(ctx().fresh("update_fails")), bud > 0)
+        xs = st.copy()
+        xs.pc = z3.And(st.pc, fails)
+        xs.env["ghost.fault_budget"] = Val.of_num(N(bud - 1))
+        ex = Exit("raise", xs, exc="LinAlgError", where=eng.where(e))
+        ex.tag = "external[GP.update]"
+        eng.push_exit(ex)
+        st.pc = z3.And(st.pc, z3.Not(fails))
     if base is not None and base.ref is not None:
         eng.havoc_prefix(st, base.ref + ".posteriors")
         eng.havoc_path(st, base.ref + ".posteriors")
@@ -1082,6 +1143,21 @@ def sf_argsort_rank(eng, e, st):
     return Val.of_num(N(pm[1](i)))
 
 
+def sf_isunbound(eng, e, st):
+    """isunbound(name): the local has no value on the current path (opt-in unbound-local tracking)."""
+    nm = e.args[0].id
+    if nm not in st.env:
+        return Val.of_bool(True)
+    return Val.of_bool(st.env.get("#undef:" + nm, z3.BoolVal(False)))
+
+
+def sf_haskey(eng, e, st):
+    d = eng.ev(e.args[0], st)
+    if d.ref is None or not isinstance(e.args[1], ast.Constant):
+        raise Undecided("haskey(d, 'k') needs a tracked dictionary and a constant key")
+    return Val.of_bool(eng.lookup_state_has_key(d.ref, e.args[1].value))
+
+
 def sf_feasx(eng, e, st):
     from contracts import models
 
@@ -1172,7 +1248,7 @@ SPECFUNCS = {
     "upd": sf_upd,
     "row": sf_row, "pt": sf_pt, "invt": _ptfun("InvT"), "fwdt": _ptfun("FwdT"), "cval": _ptfun("Cval", False), "feasx": sf_feasx,
     "pteq": sf_pteq, "ptat": sf_ptat,
-    "count_true": sf_count_true, "sum_of": sf_sum_of, "acqv": sf_acqv, "argsort_rank": sf_argsort_rank,
+    "count_true": sf_count_true, "sum_of": sf_sum_of, "acqv": sf_acqv, "haskey": sf_haskey, "isunbound": sf_isunbound, "argsort_rank": sf_argsort_rank,
     "old": sf_old, "implies": sf_implies, "iff": sf_iff, "forall": sf_forall, "exists": sf_exists, "rows": sf_rows,
     "cols": sf_cols, "ite": sf_ite, "isint": sf_isint, "isnone": sf_isnone, "pw": sf_pw, "ghost": sf_ghost,
     "ghostp": sf_ghostp, "same": sf_same, "truthy": sf_truthy, "isfinite": sf_isfinite, "isnan": sf_isnan, "num": sf_num,
